@@ -13,7 +13,8 @@ ELB = {"i8": 1, "i32": 4, "i64": 8, "i4": 1, "i12": 2}
 
 
 class AllocGen:
-    def __init__(self, rng, views=True, two_mem=False, odd_align=False):
+    def __init__(self, rng, views=True, two_mem=False, odd_align=False, dyn_allocs=0.0):
+        self.dyn_allocs = dyn_allocs  # share of the buffers whose size is only known at run time (judged statically only)
         self.two_mem = two_mem
         self.odd_align = odd_align  # alignments that are not powers of two (and do not divide each other)
         self.r = rng
@@ -76,6 +77,16 @@ class AllocGen:
                         return st
                 self.joins.append(nm)
                 return st
+        if k == "alloc" and self.dyn_allocs and r.random() < self.dyn_allocs:
+            # a buffer whose size depends on a run-time value (%p0): not viewed, not joined, only used
+            nm = self.fresh("b")
+            el = r.choice(list(ELB))
+            self.tag += 1
+            self.types[nm] = f'memref<?x{el}, "L1">'
+            self.refs.append(nm)
+            self.unused.add(nm)
+            self.site_of[nm] = self.tag
+            return {"k": "alloc", "name": nm, "site": self.tag, "n": [r.choice([3, 8, 16, 64]), r.choice([4, 5, 24])], "el": el, "align": r.choice([1, 4, 8, 64]), "dyn": True}
         if k == "alloc":
             nm = self.fresh("b")
             el = r.choice(list(ELB))
@@ -178,6 +189,12 @@ def emit(ast, p=(0, 0), fname="f", wrap=True) -> str:
                 e(ind, f"{nm_} = builtin.unrealized_conversion_cast {nm_}_a : {st_} to {T[nm_]}")
                 if births:
                     e(ind, f'"test.op"({nm_}) {{vtag = {9000 + s["site"]} : i64, vsites = [{s["site"]} : i64]}} : ({T[nm_]}) -> ()')
+            elif k == "alloc" and s.get("dyn"):
+                nm_ = s["name"]
+                e(ind, f'{nm_}_t = arith.constant {s["n"][0]} : index')
+                e(ind, f'{nm_}_f = arith.constant {s["n"][1]} : index')
+                e(ind, f"{nm_}_n = arith.select %p0, {nm_}_t, {nm_}_f : index")
+                e(ind, f'{nm_} = memref.alloc({nm_}_n) {{alignment = {s["align"]} : i64, vsite = {s["site"]} : i64}} : {T[nm_]}')
             elif k == "alloc":
                 e(ind, f'{s["name"]} = memref.alloc() {{alignment = {s["align"]} : i64, vsite = {s["site"]} : i64}} : {T[s["name"]]}')
                 if births:
